@@ -9,6 +9,7 @@ import SkgVerif.Lemmas.Quantile
 import SkgVerif.Gen.EstimatorsExec
 import SkgVerif.Gen.Tables
 import SkgVerif.Lemmas.CressieReal
+import SkgVerif.Gen.Source
 /-!
 # C01 — experimental variogram = estimator over exactly the pairs of each lag class
 
@@ -236,5 +237,18 @@ theorem C01_source_loop :
     Gen.groupLoopLower = ">=" ∧ Gen.groupLoopUpper = "<" ∧
     Gen.groupLoopIter = "enumerate(zip([0] + list(bin_edges), bin_edges))" ∧
     Gen.groupLoopInit = ["np.ones(len(d), dtype=int) * -1"] := by decide
+
+/-- the pipeline statements as they are in the source now: `lag_classes` yields `diffs[groups == i]` for `i` over the lag edges, the differences are `pdist([[v,0]])` (dense) / `|Vrow − Vcol|` over the stored triangle (sparse), multiplied by the co-variable's for cross-variograms, and the estimator is mapped over the classes -/
+theorem C01_source_pipeline : Gen.pipelineSource =
+    [
+    ("classes_loop", "range(len(self.bins))"),
+    ("class_members", "(yield diffs[np.where(groups == i)])"),
+    ("diffs", "diffs = self.pairwise_diffs"),
+    ("groups", "groups = self.lag_groups()"),
+    ("dense_differences", "pdist(np.column_stack((values, np.zeros(len(values)))), metric='euclidean')"),
+    ("sparse_differences", "return np.abs(Vrow.data - Vcol.data)"),
+    ("cross_product", "diffs *= co_diffs"),
+    ("cache", "self._diff = diffs"),
+    ("estimator_map", "np.fromiter(map(mapper, self.lag_classes()), dtype=float) | map(mapper, self.lag_classes())")] := by rfl
 
 end Skg
